@@ -28,7 +28,12 @@ its position `i` in `State.subs`.
   the held response is dropped with the stream, as the real server does
   (`corpus/C05/eof_with_response_held.ops`) — is never sent anything again.  (Before `Sub.eof` was repaired
   the model kept the held response and `gateOpen` delivered it; `dead_stays_silent_any`, the statement
-  without "holds no response", was false of the model then.  It is kept as the full statement, not proved.)
+  without "holds no response", was false of the model then.)
+* `dead_holds_nothing_reach`, `dead_stays_silent_any`, `dead_stays_silent_reach`: in every reachable state a
+  subscriber that is not running holds no response — every operation that ends one leaves `blocked = none`; the
+  only one that does not clear it, a failed walk, happens only at `Subscribe` (nothing held yet), never at a
+  `poll` (`walk_isSome_congr`: whether the walk fails depends on the request alone) — so (ii) holds of every
+  subscriber that is not running, without the side condition.
 * `expire_noninterference`, `expire_only_blocked`: `expire` does not change the cache, and changes no
   subscriber that is not itself running and inside `Send`; in particular (reachable states) no
   running subscriber whose flow control is open.
@@ -137,14 +142,280 @@ theorem expired_stays_silent (enc : String → String) {st : Sub.State} (hr : Re
   obtain ⟨s', g1, g2, g3, _, g5, g6⟩ := dead_stays_silent enc h1 rfl rfl ops
   exact ⟨s', g1, g2, g3, g5, g6⟩
 
-/-- (ii) without the side condition "holds no response": the full statement.  Not proved (it needs the
-invariant "a subscriber that is not running holds no response" of reachable states); its former
-counterexample — a half-close while a response is held — is gone since `Sub.eof` drops the held response:
-`eof_stays_silent`. -/
-def dead_stays_silent_any : Prop :=
-  ∀ (enc : String → String) (st : Sub.State), Reachable enc st → ∀ (i : Nat) (s : Subscriber),
+/-! ## a subscriber that is not running holds no response
+
+Every operation that ends a subscriber leaves `blocked = none`: the sender (`pump`) ends one only while it
+holds nothing; `gateOpen` / `gateStep` deliver the held response before they end one; `eof` and `expire`
+drop it; a rejected `Subscribe` call never held one.  The one operation that sets `alive := false` and
+leaves `blocked` alone is a failed walk (`doWalk`, `CompletePath` error): at `Subscribe` nothing is held yet,
+and at a `poll` it cannot fail — whether the walk fails depends on the request alone (`walk_isSome_congr`)
+and the walk of the `Subscribe` call succeeded, or the subscriber would not be running (`DInv.walks`). -/
+
+/-- whether the walk of `processSubscription` succeeds depends on the request only, not on what the cache holds -/
+theorem walk_isSome_congr (c c' : Cache.State) (r : Req) (h : (walkItems c r).isSome = true) :
+    (walkItems c' r).isSome = true := by
+  cases huo : r.updatesOnly with
+  | true => unfold walkItems; simp [huo]
+  | false =>
+    cases hw : walkItems c r with
+    | none => rw [hw] at h; cases h
+    | some items =>
+      apply SubStream.walkItems_isSome
+      intro sp hsp
+      obtain ⟨full, hf⟩ := walkItems_all_complete c r items huo hw sp hsp
+      rw [hf]; rfl
+
+/-- not running → holds nothing; a running POLL subscriber's walk succeeds whatever the cache holds -/
+structure DInv (s : Subscriber) : Prop where
+  clean : s.alive = false → s.blocked = none
+  walks : s.alive = true → s.req.mode = .poll → ∀ c, (walkItems c s.req).isSome = true
+
+theorem DInv.mono {s s' : Subscriber} (h : DInv s) (hreq : s'.req = s.req) (hal : s'.alive = true → s.alive = true)
+    (hcl : s'.alive = false → s'.blocked = none) : DInv s' :=
+  ⟨hcl, fun ha hm c => by rw [hreq] at hm ⊢; exact h.walks (hal ha) hm c⟩
+
+theorem pump_clean : ∀ (fuel : Nat) (s : Subscriber), (s.alive = false → s.blocked = none) →
+    (pump fuel s).alive = false → (pump fuel s).blocked = none
+  | 0, _ => fun h => h
+  | fuel + 1, s => by
+    unfold pump
+    split
+    · exact fun h => h
+    · rename_i hc
+      have hc' : s.alive = true ∧ s.blocked = none := by
+        cases ha : s.alive <;> cases hb : s.blocked <;> simp [ha, hb] at hc ⊢
+      obtain ⟨hal, hb⟩ := hc'
+      split
+      · split
+        · exact fun _ _ => hb
+        · exact fun h => h
+      · simp only
+        split
+        · exact fun _ => pump_clean fuel _ (fun _ => hb)
+        · split
+          · intro _ ha
+            have ha' : s.alive = false := ha
+            rw [hal] at ha'; cases ha'
+          · split
+            · exact fun _ _ => hb
+            · exact fun _ => pump_clean fuel _ (fun _ => hb)
+
+theorem DInv.pump {s : Subscriber} (h : DInv s) (fuel : Nat) : DInv (pump fuel s) := by
+  obtain ⟨_, hr, _, _, _, _, _, hal, _⟩ := pump_frame fuel s
+  exact h.mono hr hal (pump_clean fuel s h.clean)
+
+theorem DInv.pumpAll {s : Subscriber} (h : DInv s) : DInv (pumpAll s) := h.pump _
+
+theorem DInv.setQueue {s : Subscriber} (h : DInv s) (q : List (Item × Nat)) : DInv { s with queue := q } :=
+  ⟨h.clean, h.walks⟩
+
+theorem dinv_feedSub {s : Subscriber} (h : DInv s) (c' : Cache.State) (evs : List Event) :
+    DInv (feedSub c' evs s) := by
+  obtain ⟨q, hq⟩ := feedSub_shape c' evs s
+  rw [hq]
+  exact (h.setQueue q).pumpAll
+
+/-- a walk that succeeds only changes the queue -/
+theorem doWalk_ok {c : Cache.State} {s : Subscriber} (h : (walkItems c s.req).isSome = true) :
+    ∃ q, doWalk c s = { s with queue := q } := by
+  unfold Sub.doWalk
+  split
+  · rename_i hn; rw [hn] at h; cases h
+  · exact ⟨_, rfl⟩
+
+/-- the walk of a subscriber that holds nothing (a new one) -/
+theorem dinv_doWalk_new (c : Cache.State) {s : Subscriber} (hb : s.blocked = none) : DInv (doWalk c s) := by
+  cases hw : walkItems c s.req with
+  | none =>
+    have : doWalk c s = { s with alive := false, status := some .unknown } := by
+      unfold Sub.doWalk; rw [hw]
+    rw [this]
+    exact ⟨fun _ => hb, fun ha => by cases ha⟩
+  | some items =>
+    obtain ⟨q, hq⟩ := doWalk_ok (c := c) (s := s) (by rw [hw]; rfl)
+    rw [hq]
+    exact ⟨fun _ => hb, fun _ _ c' => walk_isSome_congr c c' s.req (by rw [hw]; rfl)⟩
+
+theorem dinv_pollF {s : Subscriber} (h : DInv s) (c : Cache.State) : DInv (pollF c s) := by
+  unfold pollF
+  split
+  · rename_i hc
+    obtain ⟨q, hq⟩ := doWalk_ok (h.walks hc.1 hc.2 c)
+    rw [hq]
+    exact (h.setQueue q).pumpAll
+  · exact h
+
+theorem dinv_eofF {s : Subscriber} (h : DInv s) : DInv (eofF s) := by
+  unfold eofF
+  split
+  · exact ⟨fun _ => rfl, fun ha => by cases ha⟩
+  · exact h
+
+theorem dinv_expireF {s : Subscriber} (h : DInv s) : DInv (expireF s) := by
+  unfold expireF
+  split
+  · exact ⟨fun _ => rfl, fun ha => by cases ha⟩
+  · exact h
+
+theorem dinv_drainF {s : Subscriber} (h : DInv s) : DInv (drainF s) := ⟨h.clean, h.walks⟩
+
+theorem dinv_gateF {s : Subscriber} (h : DInv s) (shut : Bool) : DInv (gateF shut s) := by
+  cases shut with
+  | true => exact ⟨h.clean, h.walks⟩
+  | false =>
+    unfold gateF
+    simp only [Bool.false_eq_true, if_false]
+    apply DInv.pumpAll
+    split
+    · split
+      · exact ⟨fun _ => rfl, fun ha => by cases ha⟩
+      · exact ⟨fun _ => rfl, h.walks⟩
+    · rename_i hb
+      exact ⟨fun _ => hb, h.walks⟩
+
+theorem dinv_stepF {s : Subscriber} (h : DInv s) : DInv (stepF s) := by
+  unfold stepF
+  split
+  · split
+    · simp only
+      split
+      · exact ⟨fun _ => rfl, fun ha => by cases ha⟩
+      · exact DInv.pumpAll ⟨fun _ => rfl, h.walks⟩
+    · exact h
+  · exact h
+
+theorem dinv_on {s : Subscriber} {f : Subscriber → Subscriber} (id : String) (h : DInv s)
+    (hf : DInv s → DInv (f s)) : DInv (on id f s) := by
+  unfold on
+  split
+  · exact hf h
+  · exact h
+
+theorem dinv_subStep (enc : String → String) (c : Cache.State) (op : SubEnd.Op) {s : Subscriber} (h : DInv s) :
+    DInv (subStep enc c op s) := by
+  cases op with
+  | c07 o =>
+    cases o with
+    | sub id acl req => exact h
+    | setCache c => exact h
+    | feed evs => exact dinv_feedSub h c evs
+    | poll id => exact dinv_on id h (fun h => dinv_pollF h c)
+    | eof id => exact dinv_on id h dinv_eofF
+    | gate id shut => exact dinv_on id h (fun h => dinv_gateF h shut)
+    | gateStep id => exact dinv_on id h dinv_stepF
+    | expire => exact dinv_expireF h
+    | drain id => exact dinv_on id h dinv_drainF
+  | ca o => exact dinv_feedSub h _ _
+  | pregate id => exact h
+
+theorem dinv_ended (id : String) (acl : Acl) (c : Code) :
+    DInv { id := id, req := {}, acl := acl, alive := false, status := some c } :=
+  ⟨fun _ => rfl, fun ha => by cases ha⟩
+
+theorem subscribe_dinv (st : Sub.State) (id : String) (acl : Acl) (req : Option Req) :
+    ∀ x ∈ (subscribe st id acl req).subs, x ∈ st.subs ∨ DInv x := by
+  have ended : ∀ (c : Code) (a : Acl), ∀ x ∈ st.subs ++
+      [({ id := id, req := {}, acl := a, alive := false, status := some c } : Subscriber)],
+      x ∈ st.subs ∨ DInv x := by
+    intro c a x hx
+    rcases List.mem_append.1 hx with h1 | h1
+    · exact Or.inl h1
+    · simp only [List.mem_singleton] at h1; rw [h1]; exact Or.inr (dinv_ended id a c)
+  have added : ∀ s : Subscriber, DInv s → ∀ x ∈ st.subs ++ [s], x ∈ st.subs ∨ DInv x := by
+    intro s hs x hx
+    rcases List.mem_append.1 hx with h | h
+    · exact Or.inl h
+    · simp only [List.mem_singleton] at h; rw [h]; exact Or.inr hs
+  unfold subscribe
+  split
+  · exact ended _ _
+  · split
+    · exact ended _ _
+    · rename_i r
+      simp only
+      split
+      · exact ended _ _
+      · split
+        · exact ended _ _
+        · split
+          · exact ended _ _
+          · split
+            · exact ended _ _
+            · split
+              · exact ended _ _
+              · split
+                · apply added
+                  apply DInv.pumpAll
+                  have h1 : DInv (doWalk st.cache (newSubscriber (st.pregated.contains id) id r acl)) :=
+                    dinv_doWalk_new _ rfl
+                  split
+                  · exact ⟨h1.clean, h1.walks⟩
+                  · exact h1
+                · apply added
+                  apply DInv.pumpAll
+                  exact dinv_doWalk_new _ rfl
+                · rename_i hmode
+                  apply added
+                  apply DInv.pumpAll
+                  cases hu : r.updatesOnly with
+                  | true =>
+                    simp only [if_true]
+                    refine ⟨fun _ => rfl, fun _ hm => ?_⟩
+                    have hm' : r.mode = .poll := hm
+                    rw [hmode] at hm'; cases hm'
+                  | false =>
+                    simp only [Bool.false_eq_true, if_false]
+                    exact dinv_doWalk_new _ rfl
+                · exact ended _ _
+
+def AllD (st : Sub.State) : Prop := ∀ s ∈ st.subs, DInv s
+
+theorem step_dinv (enc : String → String) (st : Sub.State) (op : SubEnd.Op) (h : AllD st) : AllD (step enc st op) := by
+  rw [step_pointwise]
+  intro x hx
+  rcases List.mem_append.1 hx with hx | hx
+  · obtain ⟨s, hs, rfl⟩ := List.mem_map.1 hx
+    exact dinv_subStep enc st.cache op (h s hs)
+  · cases op with
+    | c07 o =>
+      cases o with
+      | sub id acl req =>
+        have := subscribe_dinv { cache := st.cache, subs := [], pregated := st.pregated } id acl req x hx
+        rcases this with h1 | h1
+        · cases h1
+        · exact h1
+      | _ => cases hx
+    | _ => cases hx
+
+theorem run_dinv (enc : String → String) : ∀ (ops : List SubEnd.Op) (st : Sub.State), AllD st → AllD (run enc st ops)
+  | [], _, h => h
+  | op :: ops, st, h => run_dinv enc ops _ (step_dinv enc st op h)
+
+/-- **In every reachable state a subscriber that is not running holds no response** -/
+theorem dead_holds_nothing_reach {enc : String → String} {st : Sub.State} (hr : Reachable enc st)
+    {i : Nat} {s : Subscriber} (hs : st.subs[i]? = some s) (ha : s.alive = false) : s.blocked = none := by
+  obtain ⟨cfg, ops, rfl⟩ := hr
+  exact (run_dinv enc ops _ (fun s hs => by cases hs) s (List.mem_of_getElem? hs)).clean ha
+
+/-- **(ii) without the side condition "holds no response"**: in every reachable state, a subscriber that is
+not running is never sent anything again, whatever operations follow (`dead_stays_silent` +
+`dead_holds_nothing_reach`).  Its former counterexample — a half-close while a response is held — is gone
+since `Sub.eof` drops the held response: `eof_stays_silent`. -/
+theorem dead_stays_silent_any :
+    ∀ (enc : String → String) (st : Sub.State), Reachable enc st → ∀ (i : Nat) (s : Subscriber),
     st.subs[i]? = some s → s.alive = false → ∀ ops : List SubEnd.Op,
-    ∃ s', (run enc st ops).subs[i]? = some s' ∧ (s'.out = s.out ∨ s'.out = [])
+    ∃ s', (run enc st ops).subs[i]? = some s' ∧ (s'.out = s.out ∨ s'.out = []) := by
+  intro enc st hr i s hs ha ops
+  obtain ⟨s', g1, _, _, _, g5, _⟩ := dead_stays_silent enc hs ha (dead_holds_nothing_reach hr hs ha) ops
+  exact ⟨s', g1, g5⟩
+
+/-- the same with everything `dead_stays_silent` says: still not running, same status, holds nothing -/
+theorem dead_stays_silent_reach (enc : String → String) {st : Sub.State} (hr : Reachable enc st) {i : Nat}
+    {s : Subscriber} (hs : st.subs[i]? = some s) (ha : s.alive = false) (ops : List SubEnd.Op) :
+    ∃ s', (run enc st ops).subs[i]? = some s' ∧ s'.alive = false ∧ s'.status = s.status ∧
+      s'.blocked = none ∧ (s'.out = s.out ∨ s'.out = []) ∧
+      ((∀ op ∈ ops, ¬ isDrainOf s.id op) → s'.out = s.out) :=
+  dead_stays_silent enc hs ha (dead_holds_nothing_reach hr hs ha) ops
 
 /-- **A half-closed POLL subscriber is never sent anything again** — whether or not its sender was inside
 a gated `Send` when the client half-closed: after `eof` it is not running, its status is OK, it holds no
@@ -235,6 +506,15 @@ theorem eof_while_blocked_witness :
       [("s0", true, none, true, 2), ("s1", true, none, false, 3), ("s2", false, some Code.ok, false, 2)] ∧
     (run id st0 [.c07 (.eof "s2"), .c07 (.gate "s2" false)]).subs.map (fun s => (s.id, s.alive, s.out.length)) =
       [("s0", true, 2), ("s1", true, 3), ("s2", false, 2)] := by decide
+
+/-- the one place where a walk runs while a response is held: a second poll trigger of the stalled POLL
+subscriber `s2`.  It stays running and keeps the held response (`dinv_pollF`: the walk cannot fail there);
+after the timeout every subscriber that is not running holds nothing (`dead_holds_nothing_reach`) -/
+theorem poll_while_blocked_witness :
+    (run id st0 [.c07 (.poll "s2")]).subs.map (fun s => (s.id, s.alive, s.blocked.isSome, s.out.length)) =
+      [("s0", true, true, 2), ("s1", true, false, 3), ("s2", true, true, 2)] ∧
+    (run id st0 [.c07 (.poll "s2"), .c07 .expire]).subs.map (fun s => (s.id, s.alive, s.blocked.isSome)) =
+      [("s0", false, false), ("s1", true, false), ("s2", false, false)] := by decide
 
 end C08Expire
 end Gnmi
